@@ -26,6 +26,8 @@ IntBounds(f) ==
               THEN {<<>>, <<1>>, <<9>>, <<1, 0>>, <<9, 9>>, <<1, 0, 0>>, <<2, 3, 1>>, <<9, 9, 9>>, <<1, 0, 0, 0>>, <<9, 9, 9, 9>>, D65535}
               ELSE {<<>>, <<1>>, <<1, 2, 7>>, <<1, 2, 8>>, <<2, 5, 5>>, <<2, 5, 6>>, <<6, 5, 5, 3, 5>>, <<6, 5, 5, 3, 6>>,
                     <<1, 6, 7, 7, 7, 2, 1, 5>>, <<1, 6, 7, 7, 7, 2, 1, 6>>, DMaxU(w)} \cup {DMaxU(x) : x \in {1, 2, 4}}
+                   \* bytes that announce a two-byte tag (1F, FF) as the value's first / last byte
+                   \cup {<<3, 1>>, <<7, 9, 3, 6>>, <<6, 5, 2, 8, 0>>}
   IN {d \in cand : (Len(d) <= md \/ (f.enc.e = "Receipt" /\ d = D65535)) /\ Fits(d, w)}
 
 \* payload lengths worth trying for a variable-length field
